@@ -767,6 +767,51 @@ impl Part for PlainText {
                     format!("under {syntax:?} the text {text:?} must come out verbatim, got {other:?}"),
                 ),
             }
+            // text without any tag, under the default delimiters, through each host entry point
+            // (one-shot render_str / render_named_str, a stored template, a template from a
+            // string): all lose exactly the one trailing newline the rule names, in each
+            // line-ending style, and nothing else
+            let plain: String = text.chars().filter(|ch| !matches!(ch, '{' | '}' | '%' | '#')).collect();
+            for tail in ["", "\n", "\r\n", "\r", "\n\n", "\n\r", "\r\r", " \n", "\r\n\r\n"] {
+                for keep in [false, true] {
+                    let src = format!("{plain}{tail}");
+                    let mut env = Environment::new();
+                    env.set_keep_trailing_newline(keep);
+                    let stored = {
+                        let mut e2 = env.clone();
+                        e2.add_template_owned("t.txt".to_string(), src.clone()).and_then(|_| e2.get_template("t.txt").and_then(|t| t.render(())))
+                    };
+                    let outs = [
+                        ("render_str", env.render_str(&src, ())),
+                        ("render_named_str", env.render_named_str("t.txt", &src, ())),
+                        ("template_from_str", env.template_from_str(&src).and_then(|t| t.render(()))),
+                        ("add_template", stored),
+                    ];
+                    let want = if keep {
+                        src.clone()
+                    } else if let Some(x) = src.strip_suffix("\r\n") {
+                        x.to_string()
+                    } else if let Some(x) = src.strip_suffix('\n') {
+                        x.to_string()
+                    } else if let Some(x) = src.strip_suffix('\r') {
+                        x.to_string()
+                    } else {
+                        src.clone()
+                    };
+                    for (via, got) in outs {
+                        match got {
+                            Ok(g) if g == want => {}
+                            other => {
+                                v.set_fail(
+                                    "plain_text_not_verbatim",
+                                    format!("{via} of tag-free text {src:?} (keep_trailing_newline={keep}) gave {other:?}, expected {want:?}"),
+                                );
+                                return v;
+                            }
+                        }
+                    }
+                }
+            }
         } else {
             // a line statement behaves like the block tag occupying that whole line; a line
             // comment like a comment occupying the rest of its line
